@@ -211,9 +211,14 @@ def attrs_differ(a, b, path='pipeline'):
         if isinstance(x, np.ndarray) or isinstance(y, np.ndarray):
             return np.array_equal(x, y)
         try:
-            return bool(x == y)
+            if bool(x == y):
+                return True
         except Exception:  # noqa
             return True
+        # plain objects without value equality (Downscale.Interpolation): field by field
+        if type(x) is type(y) and hasattr(x, '__dict__') and not callable(x):
+            return same(vars(x), vars(y))
+        return False
     out = []
     kids_a, kids_b = getattr(a, 'transforms', None), getattr(b, 'transforms', None)
     if kids_a is not None and kids_b is not None and not isinstance(kids_a, dict):
@@ -221,7 +226,8 @@ def attrs_differ(a, b, path='pipeline'):
             out += attrs_differ(x, y, '%s/%s[%d]' % (path, type(x).__name__, i))
         return out
     names = []
-    for getter in (lambda: list(a.get_transform_init_args_names()), lambda: list(a.get_transform_init_args().keys())):
+    for getter in (lambda: list(a.get_transform_init_args_names()), lambda: list(a.get_transform_init_args().keys()),
+                   lambda: [k for k in a._to_dict().keys() if not k.startswith('__')]):
         try:
             names = sorted(set(names) | set(getter()))
         except Exception:  # noqa
@@ -266,7 +272,7 @@ def run(seed=0, tier='quick', hints=None, broken=False):
         evals += 1
         seen.add((name, repr(kw)))
     # processor parameters and operators
-    for i in range(12 if tier == 'quick' else 400):
+    for i in range(14 if tier == 'quick' else 400):
         fields = ['min_planar_area', 'min_volume', 'min_area_visibility', 'min_volume_visibility', 'min_width',
                   'min_height', 'min_depth']
         vals = {f: (rng.choice([0.0, 0.25, 0.5, 2.0, 8.0, 1e-05, 3e-07]) if rng.random() < 0.5 else 0.0) for f in fields}
@@ -278,8 +284,8 @@ def run(seed=0, tier='quick', hints=None, broken=False):
         kpk = dict(format=rng.choice(['xyz', 'xyza', 'xyzas', 'zyx']), remove_invisible=rng.random() < 0.5,
                    angle_in_degrees=rng.random() < 0.5, check_each_transform=rng.random() < 0.5,
                    label_fields=rng.choice([None, ['kl']]))
-        tree = ['flat', 'oneof', 'someof', 'nested', 'oneof-always', 'someof-always'][i % 6] if tier == 'quick' else \
-            rng.choice(['flat', 'oneof', 'someof', 'nested', 'oneof-always', 'someof-always'])
+        trees = ['flat', 'oneof', 'someof', 'nested', 'oneof-always', 'someof-always', 'empty-containers']
+        tree = trees[i % len(trees)] if tier == 'quick' else rng.choice(trees)
         case = {'bbox_params': dict(vals, format=fmt, check_each_transform=each), 'keypoint_params': kpk, 'tree': tree}
 
         def build(vals=vals, fmt=fmt, each=each, kpk=kpk, tree=tree):
@@ -296,6 +302,11 @@ def run(seed=0, tier='quick', hints=None, broken=False):
             elif tree == 'someof-always':
                 inner = [A.SomeOf([A.HorizontalFlip(always_apply=True, p=0.05), A.VerticalFlip(p=0.9), A.SliceFlip(p=0.5)], n=1, p=1.0),
                          A.Crop(2, 1, 0, 9, 9, 4, always_apply=True, p=0.2)]
+            elif tree == 'empty-containers':
+                # containers without children (an optional stage that is switched off) are nodes of the tree like any other:
+                # they draw their own coin and take part in the selection of their parent
+                inner = [A.Compose([], p=0.5), A.OneOf([A.Compose([]), A.HorizontalFlip(p=0.5), A.Sequential([], p=0.5)], p=1.0),
+                         A.Crop(2, 1, 0, 9, 9, 4, p=1.0), A.VerticalFlip(p=0.5)]
             elif tree == 'nested':
                 inner = [A.Sequential([A.OneOrOther(A.HorizontalFlip(p=1), A.Transpose(p=1), p=0.4)], p=1.0),
                          A.Compose([A.Crop(2, 1, 0, 9, 9, 4, p=1.0)], p=0.8)]
